@@ -66,8 +66,10 @@ def repaired_first(view, cmdbyte, need_close=True):
     """close (unless the old connection is already closed), open, full bring-up, and only then the command APDU."""
     if not need_close and view[:1] != ["close"]:
         view = ["close"] + view
-    want = ["close", "open"] + BRINGUP
-    return view[:len(want)] == want and len(view) > len(want) and view[len(want)] == cmdbyte
+    n = 2 + len(BRINGUP)
+    # re-open first, then the bring-up exchanges (the statement does not fix their order), then the command
+    return view[:2] == ["close", "open"] and sorted(view[2:n], key=str) == sorted(BRINGUP, key=str) and len(view) > n \
+        and view[n] == cmdbyte
 
 
 @obligation(tier="quick", parts=len(PARTS), timeout=150,
@@ -216,5 +218,6 @@ def repair_by_any_command(kindi: int, fails: int) -> bool:
     if out[0] != "reply" or out[1].get("errorcode") != 0:
         return False
     # re-open and the full bring-up come before anything else
-    want = (["close"] if fails == 0 else []) + ["open"] + BRINGUP
-    return view[:len(want)] == want and len(view) > len(want)
+    head = (["close"] if fails == 0 else []) + ["open"]
+    n = len(head) + len(BRINGUP)
+    return view[:len(head)] == head and sorted(view[len(head):n], key=str) == sorted(BRINGUP, key=str) and len(view) > n
